@@ -114,6 +114,34 @@ theorem removeFirst_sublist (op : Nat) : ∀ l : List Pending, (removeFirst op l
     · exact List.sublist_cons_self _ _
     · exact (removeFirst_sublist op ps).cons_cons _
 
+/-- **store, then load** (also C17's "storing it in and loading it from the pending list"): after a successful
+    CreateValidator the lookup the admission path uses (`pendingFind`, first match by operator) returns exactly
+    the application just stored, and every other operator's lookup answers as before -/
+theorem c10_store_load (s s' : App) (c : CreateArgs) (h : createMsg s (.op c.op) c = .ok s') :
+    ∃ p, s'.pendingFind c.op = some p ∧ s'.pending = s.pending ++ [p] ∧ p.op = c.op ∧ some p.key = c.key ∧
+      p.tokens = 0 ∧ p.minSelf = 1 ∧
+      ∀ op', op' ≠ c.op → s'.pendingFind op' = s.pendingFind op' := by
+  have hacc := (C15.c15_handler s c).mp ⟨s', h⟩
+  obtain ⟨key, hk, _, _, _, hop, hkey, hclash, _, _⟩ := hacc
+  obtain ⟨p, hp, hpo, hpk, ht, hm, _⟩ := C15.c15_fixed_fields s s' _ c h
+  have hnot := (pendingClash_none c.op key s.pending hclash).1
+  refine ⟨p, ?_, hp, hpo, hpk, ht, hm, ?_⟩
+  · unfold pendingFind
+    rw [hp, List.find?_append]
+    have : s.pending.find? (fun q => q.op == c.op) = none := by
+      rw [List.find?_eq_none]
+      intro q hq hqo
+      exact hnot (by simpa using ⟨q, hq, by simpa using hqo⟩)
+    rw [this]
+    simp [hpo]
+  · intro op' hne
+    unfold pendingFind
+    rw [hp, List.find?_append]
+    have : ([p] : List Pending).find? (fun q => q.op == op') = none := by
+      simp [hpo]; exact fun e => hne e.symm
+    rw [this]
+    simp
+
 /-- **uniqueness**: a successful CreateValidator keeps operators and consensus keys of the queue pairwise distinct,
     and its operator and key are those of no existing validator -/
 theorem c10_create_unique (s s' : App) (c : CreateArgs) (hu : PendingUnique s) (h : createMsg s (.op c.op) c = .ok s') :
